@@ -19,3 +19,27 @@ func (es *EdgeSource) GenID(srcID, dstID string) string {
 	}
 	return es.fromVertex.prefix + srcID + "-" + es.config.Label + "-" + es.toVertex.prefix + dstID
 }
+
+// ParseID lists the (source row id, destination row id) pairs that GenID of an
+// outgoing edge source maps to gid. Row ids, labels and vertex prefixes may
+// contain '-', so every position of the "-label-prefix" separator is a candidate.
+func (es *EdgeSource) ParseID(gid string) [][2]string {
+	out := [][2]string{}
+	if !strings.HasPrefix(gid, es.fromVertex.prefix) {
+		return out
+	}
+	rest := gid[len(es.fromVertex.prefix):]
+	sep := "-" + es.config.Label + "-" + es.toVertex.prefix
+	for i := 0; i < len(rest); i++ {
+		j := strings.Index(rest[i:], sep)
+		if j < 0 {
+			break
+		}
+		i += j
+		src, dst := rest[:i], rest[i+len(sep):]
+		if src != "" && dst != "" {
+			out = append(out, [2]string{src, dst})
+		}
+	}
+	return out
+}
